@@ -482,17 +482,23 @@ def make_tasks(env: Env, broker: ScriptedBroker, cfg: Dict[str, Any]) -> None:
     by_id = {d["id"]: d for d in deps}
     top = [d["id"] for d in deps if d["parent"] == 0]
 
-    def argflag(i: int, v: Any, w: Any = None) -> str:
+    _UNSET = object()
+
+    def argflag(i: int, v: Any, w: Any = None, z: Any = _UNSET) -> str:
         want = ARG_POOL[i % len(ARG_POOL)]
         # third argument: sent as the text "5" for a parameter annotated int - arrives converted iff parsing is enabled
         want_w: Any = "5" if cfg.get("noparse") else 5
         ok = type(v) is type(want) and v == want and type(w) is type(want_w) and w == want_w
+        # keyword `z` is on the wire of every third message only ({"q": idx}, kept as sent: nothing converts to PlainRx);
+        # an execution whose own message does not carry it sees the parameter's default
+        if z is not _UNSET:
+            ok = ok and (z == {"q": i} if i % 3 == 0 else z is None)
         return "argok" if ok else "argbad"
 
-    async def body_async(i: int, ctx_tid: int, v: Any = None, w: Any = None) -> Any:
+    async def body_async(i: int, ctx_tid: int, v: Any = None, w: Any = None, z: Any = _UNSET) -> Any:
         m = CUR_M.get()
         mc = cfg["msgs"][i - 1]
-        env.rec("start", m=m, x=i, y=ctx_tid, s=argflag(i, v, w))
+        env.rec("start", m=m, x=i, y=ctx_tid, s=argflag(i, v, w, z))
         if mc.get("body", "wait") == "instant":
             outcome = mc.get("outcome", "ret")
         else:
@@ -543,34 +549,34 @@ def make_tasks(env: Env, broker: ScriptedBroker, cfg: Dict[str, Any]) -> None:
         env.raised[i] = exc
         raise exc
 
-    def body_sync(i: int, ctx_tid: int, v: Any = None, w: Any = None) -> Any:
+    def body_sync(i: int, ctx_tid: int, v: Any = None, w: Any = None, z: Any = _UNSET) -> Any:
         mc = cfg["msgs"][i - 1]
         hold = env.body_fut.get(i)
         if mc.get("slow") and isinstance(hold, SyncHold):
             m = env.sync_m.get(i, i)          # runs in a worker thread: the context variable of the callback is not there
-            env.rec("start", m=m, x=i, y=ctx_tid, s=argflag(i, v, w))
+            env.rec("start", m=m, x=i, y=ctx_tid, s=argflag(i, v, w, z))
             hold.started.set()
             hold.go.wait()
             if env.abort:
                 return None
             return finish_body(i, m, hold.outcome)
         m = CUR_M.get()
-        env.rec("start", m=m, x=i, y=ctx_tid, s=argflag(i, v, w))
+        env.rec("start", m=m, x=i, y=ctx_tid, s=argflag(i, v, w, z))
         return finish_body(i, m, mc.get("outcome", "ret"))
 
     # plain tasks (no dependency graph at all)
     async def ta0(i: int, v: Any = None, w: int = 0, z: PlainRx = None) -> Any:  # type: ignore[assignment]
-        return await body_async(i, 0, v, w)
+        return await body_async(i, 0, v, w, z)
 
     def ts0(i: int, v: Any = None, w: int = 0, z: PlainRx = None) -> Any:  # type: ignore[assignment]
-        return body_sync(i, 0, v, w)
+        return body_sync(i, 0, v, w, z)
 
     async def tlate(i: int, v: Any = None, w: int = 0, z: PlainRx = None) -> Any:  # type: ignore[assignment]
-        return await body_async(i, 0, v, w)
+        return await body_async(i, 0, v, w, z)
     env.late_task = tlate
     if cfg.get("late_sync_first"):
         def tlate_sync(i: int, v: Any = None, w: int = 0, z: PlainRx = None) -> Any:  # type: ignore[assignment]
-            return body_sync(i, 0, v, w)
+            return body_sync(i, 0, v, w, z)
         broker.register_task(tlate_sync, task_name="tlate")
     if not cfg.get("synconly"):
         broker.register_task(ta0, task_name="ta0")
@@ -590,9 +596,9 @@ def make_tasks(env: Env, broker: ScriptedBroker, cfg: Dict[str, Any]) -> None:
     src = (
         f"async def ta({sig}):\n"
         f"    CTXS[i] = ctx\n"
-        f"    return await BODY_A(i, MID(ctx.message.task_id), v, w)\n"
+        f"    return await BODY_A(i, MID(ctx.message.task_id), v, w, z)\n"
         f"def ts({sig_s}):\n"
-        f"    return BODY_S(i, MID(ctx.message.task_id), v, w)\n"
+        f"    return BODY_S(i, MID(ctx.message.task_id), v, w, z)\n"
     )
     def get_ctx(ctx: Context = TaskiqDepends()) -> Context:
         return ctx
@@ -640,6 +646,11 @@ def build_messages(env: Env, broker: ScriptedBroker, cfg: Dict[str, Any]) -> Non
             if mc.get("late"):
                 name = "tlate"           # a task that is registered while the worker is running (scenario step "register")
             wire_labels, wire_types = labels, None
+            if idx % 4 == 3:
+                # an old-style producer (no label types at all) using, as plain text, label names that typed messages of the
+                # same task carry as bool / bytes: text stays text, whatever other messages said about these names
+                labels["ok"] = "True"
+                labels["raw"] = "dGVuYW50"
             if idx % 2 == 0:
                 # the way a kicker puts labels on the wire: stringified values + per-label type (incl. a bytes label whose
                 # text is not itself valid base64)
@@ -659,7 +670,10 @@ def build_messages(env: Env, broker: ScriptedBroker, cfg: Dict[str, Any]) -> Non
             env.msg_labels[idx] = dict(labels)
             data = broker.formatter.dumps(tm).message
         if cfg.get("ackable", True):
-            broker.msgs.append(AckableMessage(data=data, ack=_make_ack(env, idx, cfg)))
+            payload: Any = data
+            if kind not in ("malformed", "minus1", "empty") and idx % 5 == 2:
+                payload = data.decode()      # a client library that hands out text: AckableMessage takes it and holds bytes
+            broker.msgs.append(AckableMessage(data=payload, ack=_make_ack(env, idx, cfg)))
         else:
             broker.msgs.append(RawMsg(data))
 
